@@ -132,9 +132,9 @@ func (r modelRes) String() string {
 type model struct {
 	unsupported bool // the core rejects the original message (not the substituted ones) for its protocol version
 	closed      bool // the core answers every execution with the closed-connection error
-	progs  []stageProg
-	events []string
-	cores  int
+	progs       []stageProg
+	events      []string
+	cores       int
 }
 
 func (m *model) run(stage int, msg string, marks []string, ended ...bool) modelRes {
